@@ -142,12 +142,13 @@ class QueueSink(Sink[Any]):
         self._foreach = foreach
 
     def write(self, item: Any) -> None:
-        try:
-            item = (item if self._foreach else [item])
-            for i in item:
+        for i in (item if self._foreach else [item]):
+            #only the put is guarded. The items can be produced lazily by the pipes in front of us
+            #and an error of one of these types raised by them is not a problem with the queue.
+            try:
                 self._queue.put(i)
-        except (EOFError,BrokenPipeError,AssertionError):
-            pass
+            except (EOFError,BrokenPipeError,AssertionError):
+                break
 
 class LambdaSink(Sink[Any]):
     """A sink which passes written items to a callable function."""
